@@ -138,11 +138,11 @@ def place(mem, start, skip, stream):
 
 def old_message(rnd, n, style):
     if style == "zero-lead":          # 00 xx ..: a stale length field reads as a small bogus length
-        m = [0, rnd.choice([1, 2, 7, 16, 40])] + [rnd.randrange(256) for _ in range(max(0, n - 2))]
+        m = [0, rnd.choice([1, 2, 7, 16, 40])] + [rnd.randrange(0x80, 0xFF) for _ in range(max(0, n - 2))]
         return m[:n]
     if style == "ff":
         return [0xFF] * n
-    return [rnd.randrange(1, 255) for _ in range(n)]
+    return [rnd.randrange(0x80, 0xFF) for _ in range(n)]      # disjoint from the new messages (0x20..0x7E)
 
 
 def build_t2(rnd, cc2, extra, pad, ctls, oldn, style="rnd"):
@@ -185,13 +185,15 @@ def build_t2(rnd, cc2, extra, pad, ctls, oldn, style="rnd"):
                 old=old)
 
 
-def build_t1(rnd, dyn, size, hr1, pad, ctls, oldn, style="rnd", canonical512=False):
+def build_t1(rnd, dyn, size, hr1, pad, ctls, oldn, style="rnd", canonical512=False, phys=None):
+    """size = the declared memory size ((CC byte 2 + 1) * 8), phys = the physical size (default: the same)"""
     cc2 = size // 8 - 1
+    phys = phys or size
     fixed = set(range(104, 120 if size == 120 else 128))
     skip = set(fixed)
     for c in ctls:
         skip |= set(ctl_range(c))
-    mem = bytearray(size)
+    mem = bytearray(phys)
     mem[0:8] = bytes([0x11, 0x22, 0x33, 0x44, 0x55, 0x66, 0x77, 0x00])
     mem[8:12] = bytes([0xE1, 0x10, cc2, 0x00])
     for a in range(12, size):
@@ -225,7 +227,7 @@ def build_t1(rnd, dyn, size, hr1, pad, ctls, oldn, style="rnd", canonical512=Fal
                 ro=ranges(list(range(0, 8)) + list(range(104, 112))),
                 ow=ranges(set(range(112, 128 if dyn else 120)) | {a for a in lock if a < size}),
                 desc=dict(b="t1", dyn=dyn, size=size, hr1=hr1, pad=pad, ctls=[list(c) for c in ctls], oldn=oldn,
-                          style=style, canonical512=canonical512),
+                          style=style, canonical512=canonical512, phys=phys),
                 old=old)
 
 
@@ -233,7 +235,7 @@ def build(rnd, d):
     if d["b"] == "t2":
         return build_t2(rnd, d["cc2"], d["extra"], d["pad"], [list(c) for c in d["ctls"]], d["oldn"], d["style"])
     return build_t1(rnd, d["dyn"], d["size"], d["hr1"], d["pad"], [list(c) for c in d["ctls"]], d["oldn"],
-                    d["style"], d.get("canonical512", False))
+                    d["style"], d.get("canonical512", False), d.get("phys"))
 
 
 def make_sim(lay):
@@ -339,9 +341,22 @@ def t2_desc(cc2, pad, ctls=(), oldn=0, style="rnd", extra=16):
     return dict(b="t2", cc2=cc2, extra=extra, pad=pad, ctls=[list(c) for c in ctls], oldn=oldn, style=style)
 
 
-def t1_desc(dyn, size, hr1, pad, ctls=(), oldn=0, style="rnd", canonical512=False):
+def t1_desc(dyn, size, hr1, pad, ctls=(), oldn=0, style="rnd", canonical512=False, phys=None):
     return dict(b="t1", dyn=dyn, size=size, hr1=hr1, pad=pad, ctls=[list(c) for c in ctls], oldn=oldn,
-                style=style, canonical512=canonical512)
+                style=style, canonical512=canonical512, phys=phys)
+
+
+def threshold_layouts(quick):
+    """usable TLV space (NDEF TLV tag byte .. end of the data area, minus reserved bytes) at every value around
+    the point where the 3-byte length format starts to pay off: 253 .. 260 bytes, Type 2 and Type 1 dynamic"""
+    out = []
+    rooms = [256, 257, 258, 259] if quick else list(range(253, 261))
+    for room in rooms:
+        out.append(("t2-room%d" % room, t2_desc(33, 264 - room, (), 3 + room % 3)))                 # 8 * 33 - pad
+        out.append(("t1d-room%d" % room, t1_desc(True, 296, 0x00, 260 - room, (), 3 + room % 3, phys=384)))  # 296 - 36 - pad
+    # CC size byte 25h (304 byte area) with the Topaz-512 control TLVs, NDEF TLV at byte 22: 258 usable bytes
+    out.append(("t1d-cc25-room258", t1_desc(True, 304, 0x4C, 0, (), 5, canonical512=True, phys=512)))
+    return out
 
 
 def layouts_c01(rnd, quick):
@@ -373,9 +388,7 @@ def layouts_c01(rnd, quick):
                         out.append(t2_desc(cc2, j % 4, [vary([1, mid + j, b2, None, 3], j)], 5))
                     except ValueError:
                         pass
-    out.append(t2_desc(33, 7, (), 3))           # 257 bytes from the NDEF TLV to the end of the area
-    if not quick:
-        out.append(t2_desc(33, 6, (), 3))       # 258
+    out += [d for _, d in threshold_layouts(quick)]
     if quick:
         out.append(t2_desc(0x6D, 1, (), 300))
         out.append(t2_desc(0xFE, 3, (), 0, extra=32))
@@ -452,16 +465,22 @@ def cases_c02(seed, quick):
         lseed = seed * 1000 + 500 + li
         p = probe(desc, lseed)
         cap = p["cap"]
-        lens = [n for n in sorted({1, 2, 40, 254, 255, 300, cap}) if n <= cap]
+        oldn = desc["oldn"]
+        # the new message has EXACTLY the old length (the length field does not change; the contents differ in
+        # every page: old bytes are >= 80h, new bytes 20h..7Eh), or is 255 long over an old 3-byte length field
+        same = {oldn} | ({255} if oldn >= LONG else set())
+        lens = [n for n in sorted({1, 2, 40, 254, 255, 300, cap} | same) if n <= cap]
         if quick:
-            lens = [n for n in lens if n in (1, 40, 300) or (n == cap and cap < 100)]
+            lens = [n for n in lens if n in (1, 40, 300) or n in same or (n == cap and cap < 100)]
         for n in lens:
             base = dict(lay=desc, lseed=lseed, op="write", n=n, mseed=seed + li)
             total, _ = count_cmds(dict(id="x", cut=None, **base))
-            if total <= (8 if quick else 40):
+            if total <= (8 if quick else 40) or (n in same and (not quick or total <= 12)):
                 cuts = set(range(0, total + 1))
             else:
                 cuts = {0, 1, total - 2, total - 1, total} | {rnd.randrange(2, total - 2) for _ in range(1 if quick else 8)}
+                if n in same:              # every few data pages
+                    cuts |= set(range(2, total - 2, max(1, total // (6 if quick else 40))))
                 if not quick:
                     cuts |= {2, total - 3}
             cases.append(dict(id="c%d.%d.full" % (li, n), cut=None, **base))
@@ -530,6 +549,7 @@ def layouts_c03(rnd, quick):
         out.append(("tlv-at-end", t2_desc(cc2, cc2 * 8 - 2, (), 0, "rnd", extra=16)))
     out.append(("tlv-at-end-static", t2_desc(6, 46, (), 0, "rnd", extra=0)))
     out.append(("plain", t2_desc(6, 0, (), 20, "rnd", extra=0)))
+    out += threshold_layouts(quick)
     # Type 1 (tt1.py has its own get_lock_byte_range / get_rsvd_byte_range)
     out.append(("topaz", t1_desc(False, 120, 0x48, 0, (), 40)))
     out.append(("t1s-memctl", t1_desc(False, 120, 0x00, 1, [vary([2, 40, 6], 1)], 10)))
@@ -567,6 +587,10 @@ def cases_c03(seed, quick):
         cap, off = p["cap"], p["off"]
         light = "-k" in name                      # encoding variants of a layout that is exercised in full elsewhere
         lens = set() if light else ({1, cap, cap + 1} | ({13, cap // 2, cap - 1, 254, 255, 256} if not quick else set()))
+        if "room" in name:                        # around the 1-byte / 3-byte length format boundary
+            lens = {n for n in (253, 254, 255, 256, cap - 1, cap, cap + 1) if quick or True}
+            if quick:
+                lens -= {253, cap - 1}
         # lengths whose last byte sits directly in front of a reserved range
         rs = set()
         for c in desc["ctls"]:
@@ -752,10 +776,10 @@ def mc_compute(pid, quick):
     c = pid.lower()
     cfg = "MC_TlvTag_%s%s.cfg" % (c, "q" if quick else "t")
     r = tlc.run("MC_TlvTag.tla", cfg, pid, workers=16, timeout=600 if quick else 1800)
-    need = {"C01": ["W_DoneLong", "W_DoneCap", "W_Rejected", "W_Crash", "W_SkipInside", "W_OddLock"],
+    need = {"C01": ["W_DoneLong", "W_DoneCap", "W_Rejected", "W_Crash", "W_SkipInside", "W_OddLock", "W_RoomEdge"],
             "C02": ["W_CutNew", "W_CutOld", "W_CutEmpty", "W_Straddle", "W_Mixture"],
             "C03": ["W_SkipInside", "W_SkipAfter", "W_SkipBeyond", "W_FormatWipe", "W_Escape", "W_OddLock", "W_Mem256",
-                    "W_Exp2", "W_Exp3", "W_Exp4"]}[pid]
+                    "W_Exp2", "W_Exp3", "W_Exp4", "W_RoomEdge"]}[pid]
     hit, _ = tlc.witnesses("MC_TlvTag.tla", "MC_TlvTag_%sw.cfg" % c, pid, need, timeout=600, workers=2)
     return cfg, r, need, hit
 
